@@ -679,12 +679,13 @@ func peers(w http.ResponseWriter, r *http.Request, t *tor.Torrent) {
 				state := ""
 				st, err := tt.GetState()
 				if st == tracker.Error && err != nil {
-					state = fmt.Sprintf("(%v)", err)
+					state = fmt.Sprintf("(%v)",
+						html.EscapeString(err.Error()))
 				} else if st != tracker.Idle {
 					state = fmt.Sprintf("(%v)", st.String())
 				}
 				fmt.Fprintf(w, "<tr><td>%v</td><td>%v</td></tr>\n",
-					tt.URL(), state)
+					html.EscapeString(tt.URL()), state)
 			}
 			if i+1 < len(trackers) {
 				fmt.Fprintf(w, "<tr></tr>\n")
